@@ -309,6 +309,9 @@ def run(prop, tier):
                          "vm_compute_crosschecked": vm, "correspondence_mismatches": len(mism), "tie_translation": tie["detail"][:300], "by_source_kind": kinds, "operation_histogram": opk})
     if viol:
         res.add_violation(viol["what"], viol)
+    elif not tie["ok"] and not mism:
+        res.tie_undischarged("translation tie broken: " + tie["detail"][:700] + " -- the operation-sequence correspondence agrees everywhere and the read-contract oracle found no failing input",
+                             {"no_longer_checks": "TieBuf.v / TieFsrc.v", "tie_detail": tie["detail"]})
     elif mism or not tie["ok"]:
         what = []
         if not tie["ok"]:
